@@ -730,4 +730,209 @@ def run_clause(K, method, clause):  # noqa: F811  (extends the dispatcher above)
             "reflexive": "orders",
         }
         return chk_c17(table.get(what, "cached-call"))
+    if method in ("toJsonFragment", "fromJsonFragment", "toJson", "fromJson"):
+        if "valid" in what or "faithful" in what:
+            return chk_c15(K)
+        return chk_json(K, what.split(":")[0] if what else "wf")
+    if method in ("zero", "__add__", "__mul__", "__iadd__") and what in ("content-type",):
+        return chk_json(K, "usable")
     return _run_clause_prims(K, method, clause)
+
+
+# --------------------------------------------------------------------------- C04 / C15: JSON
+
+
+def json_instances(K):
+    named = hg.util.named
+    out = []
+    for ck in child_kinds(K):
+        for data in datasets()[:14]:
+            try:
+                out.append((f"{K}[{ck}] filled {data}", fill_all(make(K, ck), data)))
+            except Exception:
+                pass
+    # named quantities, empty sparse containers with non-Count contents
+    if K == "SparselyBin":
+        out.append(("empty named SparselyBin", hg.SparselyBin(1.0, named("x", qx), hg.Sum(named("y", qy)))))
+        h = hg.SparselyBin(0.5, named("x", qx), hg.Sum(named("y", qy)), origin=0.25)
+        out.append(("negative-index SparselyBin", fill_all(h, [datum(-3.7), datum(2.2), datum(-INF)])))
+    if K == "Categorize":
+        out.append(("empty named Categorize", hg.Categorize(named("c", qc), hg.Sum(named("y", qy)))))
+        out.append(("bool-key Categorize", fill_all(hg.Categorize(lambda d: d["x"] > 1), [datum(0.5), datum(2.5)])))
+    if K == "Bag":
+        out.append(("string bag", fill_all(hg.Bag(lambda d: str(d["c"]), "S"), [datum(1.0, c="a"), datum(2.0, c="b"), datum(1.0, c="a")])))
+        out.append(("vector bag", fill_all(hg.Bag(lambda d: (d["x"], d["y"]), "N2"), [datum(1.0), datum(NAN), datum(1.0)])))
+    if K == "Bin":
+        out.append(("named Bin of named Sum", fill_all(hg.Bin(2, 0, 1, named("x", qx), hg.Sum(named("y", qy))), [datum(0.2), datum(NAN)])))
+    return out
+
+
+def chk_json(K, clause):
+    import tempfile
+
+    for what, h in json_instances(K):
+        try:
+            j = h.toJson()
+            text = json.dumps(j, allow_nan=False)
+        except Exception as e:
+            return f"{what}: toJson/dumps(allow_nan=False) raised {e!r}"
+        if clause == "strict":
+            continue
+        try:
+            r = hg.Factory.fromJson(j)
+            r2 = hg.Factory.fromJsonString(h.toJsonString())
+        except Exception as e:
+            return f"{what}: fromJson rejects the library's own document: {e!r}"
+        if clause in ("accepts-own-output",):
+            continue
+        if clause in ("reserialises-identically", "roundtrip-view", "roundtrip-names", "reloaded-serialises"):
+            if r.toJson() != j or r2.toJson() != j:
+                return f"{what}: reload re-serialises differently: {json.dumps(j, sort_keys=True)} vs {json.dumps(r.toJson(), sort_keys=True)}"
+            try:
+                im = h.toImmutable()
+                if not (im == r and r == im):
+                    return f"{what}: two reloads of the same document compare unequal"
+            except Exception as e:
+                return f"{what}: comparing reloads raised {e!r}"
+        if clause in ("wf", "usable", "no-raise", "view", "quantity", "content-type"):
+            try:
+                z, c, d2, m2, m0 = r.zero(), r.copy(), r + r, r * 2.0, r * 0.0
+                for x in (z, c, d2, m2, m0):
+                    json.dumps(x.toJson(), allow_nan=False)
+            except Exception as e:
+                return f"{what}: the reloaded container is not usable under zero/copy/+/*: {e!r}"
+            if not approx_eq(d2.toJson(), (h + h).toJson()):
+                return f"{what}: reloaded + reloaded differs from original + original"
+            if not approx_eq(m2.toJson(), (h * 2.0).toJson(), 1e-7):
+                return f"{what}: reloaded * 2 differs from original * 2"
+            if z.toJson() != h.zero().toJson() or c.toJson() != j:
+                return f"{what}: zero()/copy() of the reloaded container differ from the original's: {json.dumps(z.toJson())} vs {json.dumps(h.zero().toJson())}"
+    return None
+
+
+def mutate_docs(j):
+    """single-point structural mutations of a JSON document (C15)"""
+    import copy
+
+    out = []
+
+    def walk(node, path):
+        if isinstance(node, dict):
+            for k in list(node):
+                yield path + [k]
+                yield from walk(node[k], path + [k])
+        elif isinstance(node, list):
+            for i, x in enumerate(node):
+                yield path + [i]
+                yield from walk(x, path + [i])
+
+    def get(root, path):
+        for p in path:
+            root = root[p]
+        return root
+
+    for path in list(walk(j, [])):
+        parent = path[:-1]
+        key = path[-1]
+        # delete key / element
+        d = copy.deepcopy(j)
+        del get(d, parent)[key]
+        out.append((f"delete {path}", d))
+        # retype value
+        v = get(j, path)
+        for newv, tag in ((None, "null"), ([1], "list"), ({"zz": 1}, "dict"), ("zzz", "str"), (True, "bool")):
+            if type(v) is type(newv) and tag != "bool":
+                continue
+            if isinstance(v, str) and tag == "str":
+                continue
+            if isinstance(key, str) and key in ("name", "values:name", "bins:name", "sub:name") and tag in ("null", "str"):
+                continue
+            if isinstance(v, str) and key in ("type", "values:type", "bins:type", "sub:type", "underflow:type", "overflow:type", "nanflow:type") and tag == "str":
+                pass
+            d = copy.deepcopy(j)
+            get(d, parent)[key] = newv
+            out.append((f"retype {path} -> {tag}", d))
+        if isinstance(get(j, parent), dict):
+            d = copy.deepcopy(j)
+            get(d, parent)["extra_key"] = 1
+            out.append((f"add key under {parent}", d))
+            if isinstance(key, str) and key.lstrip("-").isdigit():
+                # a second, non-canonical spelling of an integer bin index
+                d = copy.deepcopy(j)
+                get(d, parent)[("-0" + key[1:]) if key.startswith("-") else ("0" + key)] = copy.deepcopy(v)
+                out.append((f"duplicate integer key {key!r} spelled non-canonically under {parent}", d))
+        if isinstance(key, str) and key.endswith("type") and isinstance(v, str):
+            d = copy.deepcopy(j)
+            get(d, parent)[key] = "NoSuchPrimitive"
+            out.append((f"rename type at {path}", d))
+        if key == "entries":
+            d = copy.deepcopy(j)
+            get(d, parent)[key] = -1.0
+            out.append((f"negative entries at {path}", d))
+    d = copy.deepcopy(j)
+    d["version"] = "99.0"
+    out.append(("incompatible version", d))
+    return out
+
+
+def chk_c15(K, include_bool=False):
+    for what, h in json_instances(K)[:6]:
+        j = h.toJson()
+        base = json.dumps(j, sort_keys=True)
+        for mut, d in mutate_docs(j):
+            if not include_bool and "-> bool" in mut:
+                continue
+            try:
+                r = hg.Factory.fromJson(d)
+            except Exception:
+                continue
+            # accepted: only acceptable if it is still a faithful, valid document (e.g. optional key removed)
+            try:
+                back = json.dumps(r.toJson(), sort_keys=True)
+            except Exception as e:
+                return f"{what}: mutated document ({mut}) loaded into a container that cannot be serialised: {e!r}"
+            if not approx_eq(json.loads(back), d):
+                return f"{what}: mutated document ({mut}) was accepted but loaded as different content: {json.dumps(d, sort_keys=True)[:300]} -> {back[:300]}"
+    return None
+
+
+def chk_version():
+    """version.compatible on a grid of version strings: a document is readable iff its specification
+    version (major, minor) is not newer than the library's; malformed strings raise"""
+    import histogrammar.version as V
+
+    maj, mnr = V.split_version_string(V.version)
+    for a in range(0, maj + 3):
+        for b in range(0, mnr + 3):
+            for s in (f"{a}.{b}", f"{a}.{b}.7", f"{a}.{b}-rc1" if False else f"{a}.{b}"):
+                want = (a, b) <= (maj, mnr)
+                got = V.compatible(s)
+                if bool(got) != want:
+                    return f"compatible({s!r}) = {got} with library version {V.version}"
+    for s in ("", "1", "abc", "1.x"):
+        try:
+            V.compatible(s)
+        except Exception:
+            continue
+        return f"compatible({s!r}) did not raise"
+    h = hg.Count()
+    j = h.toJson()
+    j["version"] = f"{maj + 1}.0"
+    try:
+        hg.Factory.fromJson(j)
+    except Exception:
+        return None
+    return "a document of a newer major version was accepted by Factory.fromJson"
+
+
+def chk_tojson_frame(K):
+    import copy
+
+    for what, h in json_instances(K):
+        before = copy.deepcopy(h.__dict__.get("values", None)), h.entries
+        j1 = js(h)
+        h.toJson()
+        h.toJsonString()
+        if js(h) != j1 or (copy.deepcopy(h.__dict__.get("values", None)), h.entries) != before:
+            return f"{what}: toJson changed the aggregator"
+    return None
